@@ -450,6 +450,34 @@ pub fn sites(tier: Tier) -> Vec<Site> {
                 judge_adaptor(acc, i, guard(|| adaptor_reads_exact(script, stream.len(), span)), &stream, &format!("messages {:?}, read_exact of {span}", msgs.iter().map(|m| m.len()).collect::<Vec<_>>()), replay);
             }));
     }
+    // 1a''. ... over a longer stream (the adaptor's staging buffer has been used, emptied and reused) in larger pieces
+    {
+        let total = 6200usize;
+        let stream: Vec<u8> = (0..total).map(|i| ((i * 7 + i / 251) % 251) as u8 + 1).collect();
+        let msg_sizes: Vec<usize> = vec![1, 3, 100, 600, 1020, 1021, 3000, 6200];
+        let spans: Vec<usize> = vec![2, 7, 100, 1019, 1500, 6200];
+        let n = (msg_sizes.len() * spans.len() * 2) as u64;
+        sites.push(Site::new("adaptor-read-exact-long", n,
+            "a 6200-byte stream in binary messages of {1, 3, 100, 600, 1020, 1021, 3000, 6200} bytes x read_exact of {2, 7, 100, 1019, 1500, 6200} bytes at a time x {every message of that size, sizes alternating with 5-byte messages}",
+            move |i, acc| {
+                let alt = i % 2 == 1;
+                let span = spans[((i / 2) % spans.len() as u64) as usize];
+                let m = msg_sizes[(i / 2 / spans.len() as u64) as usize];
+                let mut script: Vec<Msg> = vec![];
+                let mut at = 0usize;
+                let mut k = 0usize;
+                while at < total {
+                    let want = if alt && k % 2 == 1 { 5 } else { m };
+                    let n = want.min(total - at);
+                    script.push(Msg::Bin(stream[at..at + n].to_vec()));
+                    at += n;
+                    k += 1;
+                }
+                acc.eval();
+                let replay = json!({"site": "adaptor-read-exact-long", "index": i, "message_size": m, "alternating": alt, "span": span});
+                judge_adaptor(acc, i, guard(|| adaptor_reads_exact(script, total, span)), &stream, &format!("messages of {m} bytes{}, read_exact of {span}", if alt { " alternating with 5-byte ones" } else { "" }), replay);
+            }));
+    }
     // 1b. non-binary messages (text, ping, empty binary) interleaved at every boundary, budget 2
     {
         let stream: Vec<u8> = (0..6).map(|i| 0x61 + i as u8).collect();
